@@ -17,9 +17,12 @@ vars == <<pending, pendingDel, sent, told, present, bad, nops, last>>
 Init == pending = {} /\ pendingDel = {} /\ sent = {} /\ told = {} /\ present = {} /\ bad = "-" /\ nops = 0
         /\ last = [a |-> "Init"]
 
-Add(x) ==
+\* An addition carries flags (encryption preference, upload only, ...) which may differ from one
+\* announcement of the same peer to the next (tor.go announces a peer when it connects and again
+\* after its extended handshake).  The identity of a peer is its address alone: f changes nothing.
+Add(x, f) ==
   /\ nops < MaxOps /\ nops' = nops + 1 /\ present' = present \cup {x}
-  /\ last' = [a |-> "Add", x |-> x]
+  /\ last' = [a |-> "Add", x |-> x, f |-> f]
   /\ IF x \in pendingDel THEN
         /\ pendingDel' = pendingDel \ {x}
         /\ sent' = IF "add_after_del" \in Dev THEN sent ELSE sent \cup {x}
@@ -55,7 +58,7 @@ Send(ok) ==
 \* Send(FALSE) is not part of Next: write() can only fail here when the writer has
 \* terminated (the peer is exiting and its pexState is dead) -- sendPex returns
 \* before computing a delta when the writer is congested.
-Next == (\E x \in Addrs : Add(x) \/ Del(x)) \/ Send(TRUE)
+Next == (\E x \in Addrs : (\E f \in {0, 17} : Add(x, f)) \/ Del(x)) \/ Send(TRUE)
 Spec == Init /\ [][Next]_vars
 
 NoBadDelta == bad = "-"
